@@ -166,11 +166,12 @@ class DLISFile:
                 ]
             )
 
+        # number of logical records: file header, non-empty EFLR sets, frame data and no-format data of each logical file
         n = 0
-        for eflr_set_type in self._eflr_sets:
-            n += len(list(self._eflr_sets.get_all_items_for_set_type(eflr_set_type)))
-
         for idx_lf, logical_file in enumerate(self.logical_files):
+            n += 1
+            for set_dict in logical_file._eflr_sets.values():
+                n += sum(1 for eflr_set in set_dict.values() if eflr_set.n_items)
             for mfd in multi_frame_data_objects[idx_lf]:
                 n += len(mfd)
             n += len(logical_file._no_format_frame_data)
